@@ -721,3 +721,83 @@ func (t *fnTrans) freshOnlyFrame(pre *State, res ssa.Value) {
 		t.assume(fmt.Sprintf("(forall ((%s Int)) (! (=> (not (= %s %s)) (= (select %s %s) (select %s %s))) :pattern ((select %s %s))))", x, x, r, b, x, a, x, b, x))
 	}
 }
+
+
+// chanElemInvs: element invariants declared for the struct field a channel value was loaded from.
+func (t *fnTrans) chanElemInvs(ch ssa.Value) []specLine {
+	return t.chanElemInvs2(ch, map[ssa.Value]bool{})
+}
+
+func (t *fnTrans) chanElemInvs2(ch ssa.Value, seen map[ssa.Value]bool) []specLine {
+	u, ok := ch.(*ssa.UnOp)
+	if !ok || u.Op != token.MUL {
+		if phi, isPhi := ch.(*ssa.Phi); isPhi {
+			if seen[phi] {
+				return nil
+			}
+			seen[phi] = true
+			// all edges (other than cycles) from the same field
+			var first []specLine
+			got := false
+			for _, e := range phi.Edges {
+				if ep, isP := e.(*ssa.Phi); isP && seen[ep] {
+					continue
+				}
+				x := t.chanElemInvs2(e, seen)
+				if !got {
+					first, got = x, true
+				} else if len(x) != len(first) {
+					return nil
+				}
+			}
+			return first
+		}
+		return nil
+	}
+	fa, ok := u.X.(*ssa.FieldAddr)
+	if !ok {
+		return nil
+	}
+	pt := fa.X.Type().Underlying().(*types.Pointer)
+	st := pt.Elem().Underlying().(*types.Struct)
+	sa := t.g.ann.structs[t.g.typeKey(pt.Elem())]
+	if sa == nil {
+		return nil
+	}
+	return sa.elemInv[st.Field(fa.Field).Name()]
+}
+
+func (t *fnTrans) elemInvAssume(ch ssa.Value, v string, elem types.Type, cond string) {
+	for _, inv := range t.chanElemInvs(ch) {
+		e := &evalCtx{t: t, fn: t.fn, st: t.cur, old: t.entry, binds: map[string]sval{"elem": {term: v, typ: elem, sort: t.sortOf(elem)}}}
+		if term, ok := t.evalBool(e, inv); ok {
+			t.assume(implies(cond, term))
+		}
+	}
+}
+
+func (t *fnTrans) elemInvAssert(in ssa.Instruction, ch ssa.Value, v string, elem types.Type, cond string) {
+	for k, inv := range t.chanElemInvs(ch) {
+		e := &evalCtx{t: t, fn: t.fn, st: t.cur, old: t.entry, binds: map[string]sval{"elem": {term: v, typ: elem, sort: t.sortOf(elem)}}}
+		if term, ok := t.evalBool(e, inv); ok {
+			t.oblige("monitor", fmt.Sprintf("send:%s:elem%d", t.staticChanName(ch), k+1), in.Pos(), implies(cond, term), "channel element invariant: "+inv.text)
+		}
+	}
+}
+
+
+// chanNeverClosed: the channel value was loaded from a field declared never_closed.
+func (t *fnTrans) chanNeverClosed(ch ssa.Value) bool {
+	u, ok := ch.(*ssa.UnOp)
+	if !ok || u.Op != token.MUL {
+		return false
+	}
+	fa, ok := u.X.(*ssa.FieldAddr)
+	if !ok {
+		return false
+	}
+	pt := fa.X.Type().Underlying().(*types.Pointer)
+	st := pt.Elem().Underlying().(*types.Struct)
+	sa := t.g.ann.structs[t.g.typeKey(pt.Elem())]
+	return sa != nil && sa.openChan[st.Field(fa.Field).Name()]
+}
